@@ -48,7 +48,7 @@ def module_has_float(m):
 
 def e2_job(ctx, name, module, script, opts=(), harness_kw=None, backends=('z3',), unwind=70, timeout=None,
            group=None, extra_flags=(), sample=None, translator=None, extra_sources=(), ub_checks=False,
-           pad=None, wasm_bytes=None, witnesses=('end of script',), page=None):
+           pad=None, wasm_bytes=None, witnesses=('end of script',), page=None, extra_defs=()):
     """Returns Job, or a dict {'pre_violation': ...} when the translator itself fails."""
     d = ctx.dir('e2_' + name)
     wb = wasm_bytes if wasm_bytes is not None else wasmenc.encode(module, pad)
@@ -59,7 +59,7 @@ def e2_job(ctx, name, module, script, opts=(), harness_kw=None, backends=('z3',)
     hk = dict(harness_kw or {})
     if '-m' in opts:
         hk['prefix'] = True
-    defs = ['-DW2C2_VERIF=1']
+    defs = ['-DW2C2_VERIF=1'] + list(extra_defs)
     if page:
         hk['page'] = page
         defs.append('-DW2C2_VERIF_PAGE_SIZE=%d' % page)
@@ -74,14 +74,22 @@ def e2_job(ctx, name, module, script, opts=(), harness_kw=None, backends=('z3',)
         f.write(src)
     sources = [os.path.join(d, 'h.c')] + [os.path.join(d, f) for f in files] + list(extra_sources)
     flags = ['--no-malloc-may-fail', '--object-bits', '12'] + list(extra_flags)
+    acf = None
+    ign = []
     if ub_checks:
-        flags += ['--signed-overflow-check', '--undefined-shift-check', '--pointer-overflow-check',
-                  '--float-overflow-check' if False else '--div-by-zero-check']
+        # undefined-behaviour instrumentation; counted only for the emitted C and the runtime header
+        flags += ['--signed-overflow-check', '--undefined-shift-check', '--pointer-overflow-check', '--div-by-zero-check',
+                  '--bounds-check']
+        acf = [os.path.basename(f) for f in files] + ['w2c2_base.h', 'm.h']
+        # CBMC's --conversion-check is not used: its float->signed lower bound is imprecise where MIN-1 is not
+        # representable (it flags (I32)(-2147483648.0f), which is defined); out-of-range float->int casts are
+        # excluded by C02's exact trap/clamp boundary equivalence instead.
+        ign = []
     smp = dict(sample or {})
     smp.setdefault('program', name)
     smp.setdefault('w2c2_options', list(opts))
     smp.setdefault('wasm_hex', wb.hex() if len(wb) <= 160 else wb[:160].hex() + '...')
     smp.setdefault('script', script)
     return Job(name, sources, incs=[os.path.join(REPO, 'w2c2'), d], defs=defs, flags=flags, backends=backends,
-               unwind=unwind, timeout=timeout, group=group or name, sample=smp, witnesses=witnesses,
+               unwind=unwind, timeout=timeout, group=group or name, sample=smp, witnesses=witnesses, auto_check_files=acf, ignore_desc=ign,
                replay=dict(sources=sources, incs=[os.path.join(REPO, 'w2c2'), d], defs=defs, asan=ub_checks))
